@@ -5,6 +5,25 @@ From BV Require Import Base.Prelude Model.Block Model.ForkDB Model.Forkable Mode
   Model.Burst Model.Hub Model.CursorResolver Model.Joining Spec.C13_Spec.
 Local Open Scope N_scope.
 
+(* ---------------------------------------------------------------- how the file source ends (Model/Joining.file_end) *)
+
+Lemma file_end_not1 c me : (j_mode c =? 1) = false ->
+  file_end c me = if negb (j_stop c =? 0) && ((j_stop c / j_bundle c + 1) * j_bundle c <=? me) then JStop else JNil.
+Proof. intros H. unfold file_end, first_bundle_ok. rewrite H, andb_true_r. reflexivity. Qed.
+
+Lemma file_end_stop c me : file_end c me = JStop -> j_stop c <> 0 /\ (j_stop c / j_bundle c + 1) * j_bundle c <= me.
+Proof.
+  unfold file_end. destruct (j_stop c =? 0) eqn:E0; cbn [negb andb]; [discriminate|].
+  destruct ((j_stop c / j_bundle c + 1) * j_bundle c <=? me) eqn:E1; cbn [andb]; [|discriminate].
+  intros _. split; [apply N.eqb_neq; exact E0 | apply N.leb_le; exact E1].
+Qed.
+
+Lemma file_end_cases c me : file_end c me = JStop \/ file_end c me = JNil.
+Proof. unfold file_end. destruct (negb (j_stop c =? 0) && ((j_stop c / j_bundle c + 1) * j_bundle c <=? me) && first_bundle_ok c me); auto. Qed.
+
+Lemma file_end_nostop c me : j_stop c = 0 -> file_end c me = JNil.
+Proof. intros H. unfold file_end. rewrite H. reflexivity. Qed.
+
 (* ---------------------------------------------------------------- filters *)
 
 Theorem c13_filter_exact_proof : C13_filter_exact.
@@ -260,14 +279,12 @@ Proof.
   - destruct (j_filter c =? 1); (eapply phase_ok_weaken; [|first [apply live_phase_fin_ok | apply live_phase_ok]]); intros [].
   - match goal with |- phase_ok _ _ (let '(_, _) := ?X in _) _ => destruct X as [fevs rr] end.
     assert (Hw : forall r0, phase_ok c [] r0 (match rr with
-                | RsOk => if negb (j_stop c =? 0) && ((j_stop c / j_bundle c + 1) * j_bundle c <=? merged_end) then JStop else JNil
+                | RsOk => file_end c merged_end
                 | RsResolveErr => JInvalidArg | RsNotImplemented => JOther | RsFuel => JFuel end = JStop) ->
               phase_ok c [] r0 (marker c merged_end)); [|destruct (j_filter c =? 1); apply Hw; [apply file_phase_fin_ok | apply file_phase_ok]].
     intros r0. apply phase_ok_weaken.
     intros H. destruct rr; try discriminate.
-    destruct (negb (j_stop c =? 0)) eqn:H0; cbn [andb] in H; [|discriminate].
-    destruct ((j_stop c / j_bundle c + 1) * j_bundle c <=? merged_end) eqn:Hm; [|discriminate].
-    split; [apply negb_true_iff in H0; apply N.eqb_neq; exact H0 | apply N.leb_le; exact Hm].
+    exact (file_end_stop c merged_end H).
   - apply phase_ok_nil. discriminate.
   - apply phase_ok_nil. discriminate.
 Qed.
@@ -407,14 +424,14 @@ Proof.
   - match goal with |- (let '(_, _) := ?X in _) = _ -> _ => destruct X as [fevs rr] eqn:Hf end.
     intros H.
     set (fe := match rr with
-                | RsOk => if negb (j_stop c =? 0) && ((j_stop c / j_bundle c + 1) * j_bundle c <=? merged_end) then JStop else JNil
+                | RsOk => file_end c merged_end
                 | RsResolveErr => JInvalidArg | RsNotImplemented => JOther | RsFuel => JFuel end) in *.
     assert (Hfe : fe = JInvalidArg).
     { destruct (j_filter c =? 1).
       - eapply file_phase_fin_invalid. rewrite H. reflexivity.
       - eapply file_phase_invalid. rewrite H. reflexivity. }
     unfold fe in Hfe.
-    destruct rr; try discriminate; [destruct (negb (j_stop c =? 0) && _); discriminate|].
+    destruct rr; try discriminate; [destruct (file_end_cases c merged_end) as [E|E]; rewrite E in Hfe; discriminate|].
     (* a resolution error: from-cursor mode, before any event *)
     assert (fevs = []).
     { destruct (j_mode c =? 0); [inversion Hf|]. destruct (j_cursor c) as [cu|]; [|inversion Hf].
